@@ -261,3 +261,4 @@ MANIFEST = {
             'from JSON without the library.',
 }
 MANIFEST['text'] += (' ' + "Histories also contain the operation 'other' (a second Solver on the same file is created, solved and read); the status/criterion summary of a solve is read when its epoch ends, so the order of getter calls in the history is the order the object sees; threads in {None, 1, 2}; 15% of the cases have lecturer targets outside their quotas.")
+MANIFEST['text'] += (' ' + 'Each solve of a history has a drawn time limit (None, 5, 60, 3600 s) under an owned clock: a solve that exceeds its own limit is a cut-short run and is not compared, every other solve must reproduce solve 1 (a limit met earlier must not stick); the operation touch_file rewrites or deletes the instance file after construction.')
